@@ -154,6 +154,38 @@ def _gen_drain(rng, tier):
     return lines
 
 
+def drain_guard_case(m, k, jump_at_end, tail=0):
+    """A source re-arming itself every MIN_TD for m cycles, then asking for an ORDINARY wake-up +k (k > 1, due before
+    end) while the wall clock is past end_time: with m >= 1024 the consecutive-cycle counter is at the drain bound, but
+    the cut does not apply (the rule does not advance by the smallest step): the wake-up must still be evaluated.
+    jump_at_end: the wall clock follows logical time and jumps past end in cycle m; else it is past end throughout
+    (then m must be <= 1024 or the chain itself is cut).  tail: further MIN_TD steps after the ordinary wake-up."""
+    start = 1000
+    end = start + m + k + tail + 40
+    if jump_at_end:
+        head = [1, start, end, 10, 1, start + 1, 1]
+    else:
+        head = [1, start, end, 10, 1, end + 500, 1]
+    lines = [head, [6, 1], [3, 1, -1, 1, 0], [3, 1, -2, 1, 1]]
+    if jump_at_end:
+        lines.append([3, 1, m, 6, m + k + tail + 5000])
+    lines.append([3, 1, m, 1, k])
+    if tail == 0:
+        lines.append([3, 1, m + 1, 6, 0])          # the ordinary wake-up is the last one
+    else:
+        lines.append([3, 1, m + 1 + tail, 6, 0])
+    return lines
+
+
+def _gen_drain_guard(rng, tier):
+    jump = rng.random() < 0.7
+    if jump:
+        m = rng.choice([1020, 1023, 1024, 1024, 1025, 1040, 1100])
+    else:
+        m = rng.choice([1022, 1023, 1024, 1024])
+    return drain_guard_case(m, rng.choice([2, 3, 7, 30]), jump, rng.choice([0, 0, 3]))
+
+
 def _gen_lag_end(rng, tier):
     """The wall clock passes end while the graph still has work at exact logical times; steps of 1 and more."""
     v0 = 3000
@@ -261,8 +293,10 @@ def _gen(rng, tier, prop):
         return _gen_idle(rng, tier)
     if r < 0.80:
         return _gen_lag_end(rng, tier)
-    if r < 0.83:
+    if r < 0.815:
         return _gen_drain(rng, tier)
+    if r < 0.83:
+        return _gen_drain_guard(rng, tier)
     if r < 0.85:
         return nowake_case(rng.choice([1, 2]))
     return _gen_free(rng, tier)
@@ -284,6 +318,11 @@ def enumerate_cases(prop):
             out.append(base + [[4, pc, po, 2, hold[0], hold[1]]])
     out.append(nowake_case(1))
     out.append(nowake_case(2))
+    for m in (1022, 1023, 1024, 1025, 1026, 1100):
+        for k in (2, 5):
+            out.append(drain_guard_case(m, k, True))
+            if m <= 1024:
+                out.append(drain_guard_case(m, k, False))
     return out
 
 
